@@ -193,3 +193,19 @@ def check(P: Project, R: Report) -> None:
             R.ob("R5", "stdio router: " + o.key, o.ok, o.where, o.detail)
     R.need(n5 >= 1, "anchor: the routing obligations for messages with an id were not produced")
 
+    # ------------------------------------------------------------------ R6: ids the library chooses cannot collide
+    R.rule("R6", "two outstanding requests never share an id by the library's doing: the id send_message builds a request with is the caller's message_id, or uuid4-derived where the library chooses it (a counter or clock value can equal an id a caller picked for another outstanding request, and the id filter then hands one caller the other's response)")
+    from .c01 import id_origin_ok
+
+    n6 = 0
+    for st, node in list(W.sout.ret)[:6] + [(s_, n_) for s_, _t, n_ in list(W.sout.exc)[:6]]:
+        mk = [e for e in st.events if e.startswith("mkreq:")]
+        if not mk:
+            continue
+        parts = dict(p_.split("=", 1) for p_ in mk[-1][len("mkreq:"):].split("|") if "=" in p_)
+        o = W.san.origin(parts.get("id", ""))
+        ok6, why6 = id_origin_ok(o)
+        n6 += 1
+        R.ob("R6", "the request id is the caller's or uuid4-derived", ok6, f"{W.send.module.rel}:{W.send.node.lineno}", f"id origin `{o[:80]}`" + (f": {why6}" if why6 else ""), sample=f"R6 id := {o[:60]}")
+    R.need(n6 >= 1, "anchor: no path of send_message builds the request")
+
